@@ -10,6 +10,7 @@ pub mod c28;
 pub mod c32;
 pub mod c34;
 pub mod c35;
+pub mod c39;
 pub mod c41;
 pub mod c42;
 pub mod conv;
@@ -46,6 +47,7 @@ pub const REGISTRY: &[(&str, fn(&mut Ctx))] = &[
     ("C32", c32::run),
     ("C34", c34::run),
     ("C35", c35::run),
+    ("C39", c39::run),
     ("C41", c41::run),
     ("C42", c42::run),
     ("C43", conv::run_c43),
